@@ -446,6 +446,9 @@ func (p *peer) theirTurn(line string) (quit bool, err error) {
 				if tok == "" {
 					tok = "+"
 				}
+				if strings.HasSuffix(tok, "END") {
+					tok = fmt.Sprintf("%c%d", tok[0], b.csize) // resume at the very end: nothing is left to send
+				}
 				cls := answerClass[tok[0]]
 				if cls == "+" && p.stored[b.mid] {
 					tok, cls = "-", "-" // already received in this session (duplicate proposal)
